@@ -20,7 +20,7 @@
 (*   fallback-short-length        FallbackData event whose Length field is < 16 (header + seqID + status)             *)
 (*   hotrestart-no-manager        HotRestart event on a session that has no SessionManager                             *)
 (*   hotrestartack-no-listener    HotRestartAck event on a session that has no Listener                                *)
-(*   handshake-metadata-unchecked share-memory metadata event whose Length < 8 or whose path lengths exceed the body  *)
+(*   handshake-metadata-unchecked share-memory metadata event whose Length < 12 or whose path lengths exceed the body *)
 (*                                                                                                                    *)
 (* Named deviations / abstractions:                                                                                   *)
 (*  - Length fields >= 2^24 are represented by Huge (TLC integers are 32 bit); sound while a case has < 2^24 bytes.    *)
@@ -126,8 +126,10 @@ MetaOk(b) == /\ Len(b) >= 2
 MetaQ(b) == Take(b, 3, 2 + U16(b, 1))
 MetaB(b) == Take(b, 5 + U16(b, 1), 4 + U16(b, 1) + U16(b, 3 + U16(b, 1)))
 
-\* header of a metadata event has just been read in phase hs1/hs2: decide the body length
-ToMeta(S, w, ph) == IF Len32(w) < 8 THEN KnownClass(S, "handshake-metadata-unchecked")
+\* header of a metadata event has just been read in phase hs1/hs2: decide the body length. A metadata event carries at
+\* least two 2-byte path lengths, so Length < 12 cannot be well-formed and is rejected on the header (the pinned code
+\* computes Length-8 in uint32 and, for 8..11, slices the short body out of bounds)
+ToMeta(S, w, ph) == IF Len32(w) < 12 THEN KnownClass(S, "handshake-metadata-unchecked")
                     ELSE [S EXCEPT !.phase = ph, !.blen = Len32(w) - 8]
 
 HsStep(S, w, K) ==
